@@ -381,14 +381,16 @@ func runC01(ctx *core.Ctx) {
 
 	only := os.Getenv("VERIF_C01_ONLY") // development aid: run one family of streams
 	if only == "" || only == "models" {
-		c01Models(ctx) // stage-level correspondence (c01_models.go)
 		c01ResetStream(ctx)
+		ctx.Wait()
+		c01Models(ctx) // stage-level correspondence (c01_models.go)
 	}
 	if only == "" || only == "schema" {
 		runSchemaCorr(ctx) // gojsonschema vs Schema.conforms (harness/schema.go): the tie behind Props/C01Schema.lean
 	}
 	if only == "" || only == "oracle" {
 		c01Cycles(ctx)
+		ctx.Wait() // keep the inputs that are known not to return in small batches of their own
 		c01Tags(ctx, rich)
 		c01Missing(ctx)
 		c01Kinds(ctx, sch, rich)
